@@ -6,6 +6,7 @@ import (
 	"runtime"
 	"sync"
 	"sync/atomic"
+	"time"
 
 	eventbus "github.com/jilio/ebu"
 	"pgregory.net/rapid"
@@ -44,7 +45,7 @@ func GenExact(t *rapid.T) *ExactCase {
 	c := &ExactCase{UseCtx: rapid.Bool().Draw(t, "usectx"), Procs: rapid.SampledFrom([]int{1, 2, 4, 16}).Draw(t, "procs")}
 	n := rapid.IntRange(2, 7).Draw(t, "nh")
 	for i := 0; i < n; i++ {
-		c.Order = append(c.Order, rapid.SampledFrom([]string{"async", "async", "asyncseq", "once", "onceasync", "republish"}).Draw(t, "kind"))
+		c.Order = append(c.Order, rapid.SampledFrom([]string{"async", "async", "asyncseq", "asyncseq", "asyncseqodd", "once", "onceasync", "republish"}).Draw(t, "kind"))
 	}
 	np := rapid.IntRange(1, 3).Draw(t, "np")
 	for i := 0; i < np; i++ {
@@ -87,6 +88,14 @@ func RunExact(c *ExactCase) *vkit.Outcome {
 					}
 					hit(hi, e.ID)
 				}, eventbus.Async(), eventbus.Sequential())
+			case "asyncseqodd":
+				// a line of its own pace: only odd ids are accepted
+				eventbus.SubscribeContext(bus, func(_ context.Context, e xev) {
+					for y := 0; y < c.SeqYield; y++ {
+						runtime.Gosched()
+					}
+					hit(hi, e.ID)
+				}, eventbus.Async(), eventbus.Sequential(), eventbus.WithFilter(func(e xev) bool { return e.ID%2 == 1 }))
 			case "once":
 				eventbus.Subscribe(bus, func(e xev) { hit(hi, e.ID) }, eventbus.Once())
 			case "onceasync":
@@ -145,7 +154,16 @@ func RunExact(c *ExactCase) *vkit.Outcome {
 		}
 		start.Done()
 		done.Wait()
-		bus.Wait()
+		if timedOut, dump := vkit.Watchdog(30*time.Second, bus.Wait); timedOut {
+			if len(dump) > 6000 {
+				dump = dump[:6000]
+			}
+			mu.Lock()
+			state := fmt.Sprint(got)
+			mu.Unlock()
+			o.Failf("", "round %d: every publisher has returned and every context is live, yet Wait() did not return within 30 s: an asynchronous delivery never runs (order %v, %d publishers, deliveries so far %s)\n%s", round, c.Order, len(c.Publishers), state, dump)
+			return o
+		}
 		for i := range deadRuns {
 			if n := deadRuns[i].Load(); n > 1 {
 				o.Failf("", "round %d: the asynchronous handler of the cancelled publishes ran %d times for event %d", round, n, i)
@@ -155,6 +173,22 @@ func RunExact(c *ExactCase) *vkit.Outcome {
 		mu.Lock()
 		for hi, k := range c.Order {
 			switch k {
+			case "asyncseqodd":
+				odd := 0
+				for _, id := range all {
+					want := id % 2
+					odd += want
+					if n := got[hi][id]; n != want {
+						mu.Unlock()
+						o.Failf("", "round %d: handler %d (Async+Sequential, filter accepts odd ids) ran %d times for event %d after Wait returned, expected %d (order %v, %d publishers)", round, hi, n, id, want, c.Order, len(c.Publishers))
+						return o
+					}
+				}
+				if len(got[hi]) != odd {
+					mu.Unlock()
+					o.Failf("", "round %d: handler %d (asyncseqodd) saw %d distinct events, %d odd ids were published", round, hi, len(got[hi]), odd)
+					return o
+				}
 			case "async", "asyncseq", "republish":
 				for _, id := range all {
 					if n := got[hi][id]; n != 1 {
@@ -186,7 +220,7 @@ func RunExact(c *ExactCase) *vkit.Outcome {
 	hasOnce, hasAsync := false, false
 	for _, k := range c.Order {
 		hasOnce = hasOnce || k == "once" || k == "onceasync"
-		hasAsync = hasAsync || k == "async" || k == "asyncseq"
+		hasAsync = hasAsync || k == "async" || k == "asyncseq" || k == "asyncseqodd"
 	}
 	if c.Dead > 0 {
 		o.Class("publishes_of_another_type_with_contexts_cancelled_on_return")
